@@ -617,6 +617,7 @@ Property make() {
            "truncated (random offsets and +-3 around every brace), bit-flipped, has ranges removed/duplicated, then loaded. stream: sequences of "
            "memory_stream writes over all accepted types, read back whole and truncated at EVERY byte, plus flipped length prefixes. non-trivial = more "
            "than one image / damage / item; distinct = hash of (mode, template, fault kinds, damage kinds or item types)";
+  p.rule += " Later additions: a quarter of the crash plans carry a multiple-walker metadynamics bias whose replica state file must hold a complete state in every crash image after its first publication; violations record whether a failed write surfaced before or at close.";
   p.assumptions = {"crash model = process death: bytes for which write() returned are durable, stream buffers are lost",
                    "a state 'equals' a completed state when its re-serialisation matches token-wise (rtol 1e-10)",
                    "binary block boundaries are not known to the harness: at most (#objects+2) truncation points of a binary state may be accepted"};
